@@ -328,3 +328,10 @@ class Datapath:
             else:
                 raise NotModelled(k.kind)
             self.m.write_elems(k.ofm, (0, k.oh, 0, k.ow, 0, k.oc), y)
+            # the operation's working memory (IFM buffers, accumulators) inside the lookup-table area no longer holds a table
+            lo_, hi_ = self.hw["lut_addr"], min(self.hw["shram_bytes"], self.hw["lut_addr"] + HW.LUT_BYTES)
+            for a_, b_ in HW.shram_work_ranges(k, self.acc):
+                a_, b_ = max(a_, lo_), min(b_, hi_)
+                if a_ < b_:
+                    junk = ((np.arange(a_, b_, dtype=np.int64) * 37 + k.idx * 11 + 5) & 0xFF).astype(np.uint8)
+                    self.m.write_bytes(HW.SHRAM_REGION, a_, junk)
